@@ -114,3 +114,104 @@ func isBytesBufferW(w io.Writer) bool {
 //@ ensures done: result == nil && !old(e.wr == nil || avoidFlushSpec(e.Tokens.Last, e.Buf)) ==> len(e.Buf) == 0
 //@ ensures names-local: nsLocalOK(e.Names.offsets, e.Names.unquotedNames) && len(e.Names.offsets) == old(len(e.Names.offsets))
 //@ ensures names-copied: !old(e.wr == nil || avoidFlushSpec(e.Tokens.Last, e.Buf)) ==> vForall(0, len(e.Names.offsets), func(i int) bool { return e.Names.offsets[i] >= 0 })
+
+// ---------------------------------------------------------------- whitespace emitters
+
+// blankString: only spaces and tabs (what WithIndent/WithIndentPrefix accept).
+//
+//@ spec blankString
+func blankString(s string) bool {
+	return vForall(0, len(s), func(i int) bool { return s[i] == ' ' || s[i] == '\t' })
+}
+
+// AppendIndent appends only whitespace: a newline, the prefix and n-1 copies of
+// the indent, or nothing for n == 0.
+//
+//@ func (*encoderState).AppendIndent
+//@ property C06 C12 C20
+//@ requires e != nil && n >= 0 && blankString(e.Indent) && blankString(e.IndentPrefix)
+//@ modifies b[len(b):cap(b)]
+//@ ensures alias: sameOrFresh(result, b)
+//@ ensures length: len(result) >= len(b) && (n == 0 ==> len(result) == len(b))
+//@ ensures prefix: vForall(0, len(b), func(k int) bool { return result[k] == old(b[k]) })
+//@ ensures blank: vForall(len(b), len(result), func(k int) bool { return isWS(result[k]) })
+//@ loop 0 invariant range: n >= 0 && len(b) > len(old(b)) && sameOrFresh(b, old(b))
+//@ loop 0 invariant prefix: vForall(0, len(old(b)), func(k int) bool { return b[k] == old(b[k]) })
+//@ loop 0 invariant blank: vForall(len(old(b)), len(b), func(k int) bool { return isWS(b[k]) })
+//@ loop 0 decreases n
+
+// appendWhitespace appends only whitespace.
+//
+//@ func (*encoderState).appendWhitespace
+//@ property C06 C12 C20
+//@ requires e != nil && blankString(e.Indent) && blankString(e.IndentPrefix)
+//@ modifies b[len(b):cap(b)]
+//@ ensures alias: sameOrFresh(result, b)
+//@ ensures length: len(result) >= len(b)
+//@ ensures prefix: vForall(0, len(b), func(k int) bool { return result[k] == old(b[k]) })
+//@ ensures blank: vForall(len(b), len(result), func(k int) bool { return isWS(result[k]) })
+
+// ---------------------------------------------------------------- reformat (thin contracts)
+//
+// reformatValue / reformatObject / reformatArray are mutually recursive. The
+// contracts are the safety layer: only dst's spare capacity is written, src is
+// not modified, every index is in bounds, the nesting limit is enforced before
+// anything of the container is emitted (depth 10001 is refused on this path too),
+// and the namespace stack is balanced on every exit.
+
+//@ func (*encoderState).reformatValue
+//@ split
+//@ property C06 C12 C20
+//@ requires e != nil && distinctArrays(dst, src) && 1 <= depth && depth <= maxNestingDepth+1 && blankString(e.Indent) && blankString(e.IndentPrefix)
+//@ modifies dst[len(dst):cap(dst)], e.Namespaces, e.Namespaces[:cap(e.Namespaces)]
+//@ ensures alias: sameOrFresh(result0, dst)
+//@ ensures length: len(result0) >= len(dst)
+//@ ensures prefix: vForall(0, len(dst), func(k int) bool { return result0[k] == old(dst[k]) })
+//@ ensures range: 0 <= result1 && result1 <= len(src)
+//@ ensures src-kept: unchanged(src)
+//@ ensures balanced: len(e.Namespaces) == old(len(e.Namespaces)) && sameOrFresh(e.Namespaces, old(e.Namespaces))
+//@ ensures err-fresh: freshObject(asSuffixErr(result2)) && (asSuffixErr(result2) != nil ==> freshArray(asSuffixErr(result2).reversePointer))
+//@ ensures err-distinct: asSuffixErr(result2) != nil ==> distinctArrays(asSuffixErr(result2).reversePointer, result0) && distinctArrays(asSuffixErr(result2).reversePointer, src)
+
+//@ func (*encoderState).reformatArray
+//@ split
+//@ property C06 C12 C20
+//@ requires e != nil && distinctArrays(dst, src) && 1 <= depth && depth <= maxNestingDepth+1 && len(src) > 0 && src[0] == '[' && blankString(e.Indent) && blankString(e.IndentPrefix)
+//@ modifies dst[len(dst):cap(dst)], e.Namespaces, e.Namespaces[:cap(e.Namespaces)]
+//@ ensures alias: sameOrFresh(result0, dst)
+//@ ensures length: len(result0) >= len(dst)
+//@ ensures prefix: vForall(0, len(dst), func(k int) bool { return result0[k] == old(dst[k]) })
+//@ ensures range: 0 <= result1 && result1 <= len(src)
+//@ ensures src-kept: unchanged(src)
+//@ ensures balanced: len(e.Namespaces) == old(len(e.Namespaces)) && sameOrFresh(e.Namespaces, old(e.Namespaces))
+//@ ensures err-fresh: freshObject(asSuffixErr(result2)) && (asSuffixErr(result2) != nil ==> freshArray(asSuffixErr(result2).reversePointer))
+//@ ensures err-distinct: asSuffixErr(result2) != nil ==> distinctArrays(asSuffixErr(result2).reversePointer, result0) && distinctArrays(asSuffixErr(result2).reversePointer, src)
+//@ ensures depth-limit: depth == maxNestingDepth+1 ==> result2 == errMaxDepth && result1 == 0 && sameSlice(result0, dst)
+//@ loop 0 invariant range: 1 <= n && n <= len(src) && depth == old(depth)+1 && depth <= maxNestingDepth+1 && idx >= 0 && int64(n) > idx
+//@ loop 0 invariant alias: sameOrFresh(dst, old(dst)) && len(dst) > len(old(dst))
+//@ loop 0 invariant prefix: vForall(0, len(old(dst)), func(k int) bool { return dst[k] == old(dst[k]) })
+//@ loop 0 invariant src-kept: unchanged(src)
+//@ loop 0 invariant distinct: distinctArrays(dst, src)
+//@ loop 0 invariant balanced: len(e.Namespaces) == old(len(e.Namespaces)) && sameOrFresh(e.Namespaces, old(e.Namespaces))
+
+//@ func (*encoderState).reformatObject
+//@ split
+//@ property C06 C08 C12 C20
+//@ requires e != nil && distinctArrays(dst, src) && 1 <= depth && depth <= maxNestingDepth+1 && len(src) > 0 && src[0] == '{' && blankString(e.Indent) && blankString(e.IndentPrefix)
+//@ modifies dst[len(dst):cap(dst)], e.Namespaces, e.Namespaces[:cap(e.Namespaces)]
+//@ ensures alias: sameOrFresh(result0, dst)
+//@ ensures length: len(result0) >= len(dst)
+//@ ensures prefix: vForall(0, len(dst), func(k int) bool { return result0[k] == old(dst[k]) })
+//@ ensures range: 0 <= result1 && result1 <= len(src)
+//@ ensures src-kept: unchanged(src)
+//@ ensures balanced: len(e.Namespaces) == old(len(e.Namespaces)) && sameOrFresh(e.Namespaces, old(e.Namespaces))
+//@ ensures err-fresh: freshObject(asSuffixErr(result2)) && (asSuffixErr(result2) != nil ==> freshArray(asSuffixErr(result2).reversePointer))
+//@ ensures err-distinct: asSuffixErr(result2) != nil ==> distinctArrays(asSuffixErr(result2).reversePointer, result0) && distinctArrays(asSuffixErr(result2).reversePointer, src)
+//@ ensures depth-limit: depth == maxNestingDepth+1 ==> result2 == errMaxDepth && result1 == 0 && sameSlice(result0, dst)
+//@ at call names.insertQuoted#0 assert verbatim-simple: isVerbatim ==> m >= 2 && vForall(1, m-1, func(k int) bool { return src[n+k] != '\\' && src[n+k] != '"' && src[n+k] >= 0x20 && src[n+k] < 0x80 })
+//@ loop 0 invariant range: 1 <= n && n <= len(src) && depth == old(depth)+1 && depth <= maxNestingDepth+1
+//@ loop 0 invariant alias: sameOrFresh(dst, old(dst)) && len(dst) > len(old(dst))
+//@ loop 0 invariant prefix: vForall(0, len(old(dst)), func(k int) bool { return dst[k] == old(dst[k]) })
+//@ loop 0 invariant src-kept: unchanged(src)
+//@ loop 0 invariant distinct: distinctArrays(dst, src)
+//@ loop 0 invariant balanced: len(e.Namespaces) == old(len(e.Namespaces))+ite(e.Flags.Get(jsonflags.AllowDuplicateNames), 0, 1) && sameOrFresh(e.Namespaces, old(e.Namespaces))
